@@ -1,7 +1,7 @@
 (* run_case: the single entry point of the extracted model.  One case term in, one observation
    term out; the same function is evaluated with vm_compute for the extraction cross-check. *)
 From Coq Require Import String.
-From AvroV Require Import Base Varint Schema Bytes Names Codec Rabin Sexp.
+From AvroV Require Import Base Varint Schema Bytes Names Codec Validate Rabin SingleObject Sexp.
 Local Open Scope string_scope.
 
 Definition run_fuel : nat := 300.
@@ -21,6 +21,24 @@ Definition cfg_of (x : sexp) : option cfg :=
   | L [Sym _; Num m; Num v; Num kv] => Some (mkCfg (Z.to_N m) (Z.to_N v) (Z.to_N kv))
   | _ => None
   end.
+
+(* union search is not modelled yet: cases must not reach it (the driver reports panic if they do) *)
+Definition find_todo : find_fn := fun _ _ _ _ => Panic.
+
+Definition sexp_of_so_out (o : so_out) : sexp :=
+  match o with
+  | SoEmitted m => L [Sym "emitted"; Hex m]
+  | SoValueErr | SoSinkErr | SoStateErr => L [Sym "err"]
+  end.
+
+Definition so_ops_of (nmz : names) (s : schema) (l : list sexp) : option (list (res bytes * bool)) :=
+  mapM (fun op => match op with
+                  | L [Sym _; vx; Num ok] =>
+                    match value_of conv_fuel vx with
+                    | Some v => Some (so_datum run_fuel find_todo nmz s v, negb (ok =? 0)%Z)
+                    | None => None
+                    end
+                  | _ => None end) l.
 
 Definition run_case (x : sexp) : sexp :=
   match x with
@@ -43,6 +61,34 @@ Definition run_case (x : sexp) : sexp :=
         | Some c, Some s =>
           obs_of_res (fun vr => [sexp_of_value (fst vr); Hex (snd vr)])
             (do nmz <- resolved s; decode run_fuel c nmz None s b)
+        | _, _ => obs_bad
+        end
+      | _ => obs_bad
+      end
+    else if op =? "so-history" then
+      match args with
+      | sx :: Hex hdr :: ops =>
+        match schema_of conv_fuel sx with
+        | Some s =>
+          match resolved s with
+          | Ok nmz =>
+            match so_ops_of nmz s ops with
+            | Some l => L (Sym "ok" :: map sexp_of_so_out (snd (so_run hdr l)))
+            | None => obs_bad
+            end
+          | _ => obs_err
+          end
+        | None => obs_bad
+        end
+      | _ => obs_bad
+      end
+    else if op =? "so-read" then
+      match args with
+      | [cx; sx; Hex hdr; Hex msg] =>
+        match cfg_of cx, schema_of conv_fuel sx with
+        | Some c, Some s =>
+          obs_of_res (fun vr => [sexp_of_value (fst vr); Hex (snd vr)])
+            (do nmz <- resolved s; so_read run_fuel c nmz s hdr msg)
         | _, _ => obs_bad
         end
       | _ => obs_bad
